@@ -594,12 +594,15 @@ pub struct TextStyle {
     pub trail: u8,
     /// whitespace before the root value, never a space (which the format cannot tell from a scalar header): 0 none, 1 "\n", 2 "\t", 3 "\r\n"
     pub lead: u8,
+    /// objects are written with their first key duplicated up front (`{"k":null,"k":<real>}`, the first spelling
+    /// optionally \u-escaped): the last occurrence wins, so the denoted value is unchanged
+    pub dup_keys: bool,
     /// how doubles are written: 0 shortest with a fraction ("0.5", "1e300"), 1 exponent form ("5e-1"), 2 upper-case exponent with sign ("5E-1", "1E+300")
     pub num_form: u8,
 }
 
 pub fn style_to_json(s: &TextStyle) -> serde_json::Value {
-    serde_json::json!({"ws": s.ws, "escape_non_ascii": s.escape_non_ascii, "escape_slash": s.escape_slash, "upper_hex": s.upper_hex, "trail": s.trail, "lead": s.lead, "num_form": s.num_form})
+    serde_json::json!({"ws": s.ws, "escape_non_ascii": s.escape_non_ascii, "escape_slash": s.escape_slash, "upper_hex": s.upper_hex, "trail": s.trail, "lead": s.lead, "num_form": s.num_form, "dup_keys": s.dup_keys})
 }
 
 pub fn style_from_json(j: &serde_json::Value) -> TextStyle {
@@ -610,6 +613,7 @@ pub fn style_from_json(j: &serde_json::Value) -> TextStyle {
         upper_hex: j["upper_hex"].as_bool().unwrap_or(false),
         trail: j["trail"].as_u64().unwrap_or(0) as u8,
         lead: j["lead"].as_u64().unwrap_or(0) as u8,
+        dup_keys: j["dup_keys"].as_bool().unwrap_or(false),
         num_form: j["num_form"].as_u64().unwrap_or(0) as u8,
     }
 }
@@ -699,6 +703,16 @@ fn write_text(v: &MVal, st: &TextStyle, slot: &mut usize, out: &mut String) {
         }
         MVal::Obj(m) => {
             out.push('{');
+            if st.dup_keys {
+                if let Some((k, x)) = m.iter().next() {
+                    // an earlier occurrence of the first key with a different value, spelled with escapes
+                    let esc = TextStyle { escape_non_ascii: true, ..*st };
+                    write_string_styled(k, &esc, out);
+                    out.push(':');
+                    out.push_str(if *x == MVal::Null { "0" } else { "null" });
+                    out.push(',');
+                }
+            }
             for (i, (k, x)) in m.iter().enumerate() {
                 if i > 0 {
                     out.push(',');
